@@ -119,6 +119,10 @@ def ensure_facts(fs="full", repo=REPO, log=sys.stderr):
     os.makedirs(os.path.join(CACHE, "facts"), exist_ok=True)
     th, nfiles = tree_hash(repo)
     d = os.path.join(CACHE, "facts", "%s-%s" % (fs, th))
+    if os.path.abspath(repo) != "/repo" and os.environ.get("RAFTLINT_SCRATCH_TARGET"):
+        # parallel self-test shards may extract the SAME patched tree at the same time (a seeded mutant that is attributed to two
+        # checks): each shard keeps its own copy of the facts
+        d += "-" + hashlib.sha256(os.environ["RAFTLINT_SCRATCH_TARGET"].encode()).hexdigest()[:8]
     info = {"tree_hash": th, "source_files_hashed": nfiles, "featureset": fs,
             "cargo_args": FEATURESETS[fs], "cached": True}
     if _complete(d, fs):
